@@ -576,51 +576,90 @@ func plusSuffixes(p *Prog, pl *ssa.Function) []string {
 	fb := newBoundsProver(p, sharedEngineLite(p)).forFn(pl)
 	qz := &quantizer{p: p, elemVar: map[ssa.Value]string{}}
 	sfxRe := regexp.MustCompile(`^strings\.HasSuffix\(.*, ("(?:[^"\\]|\\.)*")\)$`)
+	factSuffixes := func(b *ssa.BasicBlock) {
+		for cf := range fb.facts[b.Index] {
+			if call, ok := cf.c.(*ssa.Call); ok && cf.pol && call.Call.StaticCallee() != nil && call.Call.StaticCallee().String() == "strings.HasSuffix" {
+				if s, ok := constString(call.Call.Args[1]); ok {
+					out = append(out, s)
+				}
+			}
+		}
+	}
+	seen := map[ssa.Value]bool{}
+	// from: v is what ends up in hasPlus; b is the block in which v takes that value
+	var from func(v ssa.Value, b *ssa.BasicBlock)
+	from = func(v ssa.Value, b *ssa.BasicBlock) {
+		switch t := v.(type) {
+		case *ssa.Const:
+			if t.Value != nil && t.Value.String() == "true" {
+				factSuffixes(b)
+			}
+			return
+		case *ssa.Phi:
+			// a local flag assigned under branches: each incoming value holds on its own edge
+			if seen[t] {
+				return
+			}
+			seen[t] = true
+			for i, e := range t.Edges {
+				from(e, t.Block().Preds[i])
+			}
+			return
+		}
+		f := qz.boolOf(v, map[*ssa.Phi]*qf{})
+		var disj []*qf
+		if f.Op == "or" {
+			var fl func(q *qf)
+			fl = func(q *qf) {
+				if q.Op == "or" {
+					for _, a := range q.Args {
+						fl(a)
+					}
+					return
+				}
+				disj = append(disj, q)
+			}
+			fl(f)
+		} else {
+			disj = []*qf{f}
+		}
+		for _, d := range disj {
+			if d.Op == "atom" {
+				if m := sfxRe.FindStringSubmatch(d.Atom); m != nil {
+					if s, err := strconv.Unquote(m[1]); err == nil {
+						out = append(out, s)
+					}
+				}
+			}
+		}
+	}
 	for _, b := range pl.Blocks {
 		for _, in := range b.Instrs {
-			st, ok := in.(*ssa.Store)
-			if !ok {
-				continue
-			}
-			fa, ok := st.Addr.(*ssa.FieldAddr)
-			if !ok || fieldOf(fa).Field != "hasPlus" {
-				continue
-			}
-			if c, ok := st.Val.(*ssa.Const); ok {
-				if c.Value == nil || c.Value.String() != "true" {
+			switch t := in.(type) {
+			case *ssa.Store:
+				if fa, ok := t.Addr.(*ssa.FieldAddr); ok && fieldOf(fa).Field == "hasPlus" {
+					from(t.Val, b)
+				}
+			case *ssa.Call:
+				// a node constructor: the argument that its body stores into hasPlus
+				callee := t.Call.StaticCallee()
+				if callee == nil || !p.InModule(callee) {
 					continue
 				}
-				for cf := range fb.facts[b.Index] {
-					if call, ok := cf.c.(*ssa.Call); ok && cf.pol && call.Call.StaticCallee() != nil && call.Call.StaticCallee().String() == "strings.HasSuffix" {
-						if s, ok := constString(call.Call.Args[1]); ok {
-							out = append(out, s)
+				for _, cb := range callee.Blocks {
+					for _, cin := range cb.Instrs {
+						st, ok := cin.(*ssa.Store)
+						if !ok {
+							continue
 						}
-					}
-				}
-				continue
-			}
-			f := qz.boolOf(st.Val, map[*ssa.Phi]*qf{})
-			var disj []*qf
-			if f.Op == "or" {
-				var fl func(q *qf)
-				fl = func(q *qf) {
-					if q.Op == "or" {
-						for _, a := range q.Args {
-							fl(a)
+						fa, ok := st.Addr.(*ssa.FieldAddr)
+						if !ok || fieldOf(fa).Field != "hasPlus" {
+							continue
 						}
-						return
-					}
-					disj = append(disj, q)
-				}
-				fl(f)
-			} else {
-				disj = []*qf{f}
-			}
-			for _, d := range disj {
-				if d.Op == "atom" {
-					if m := sfxRe.FindStringSubmatch(d.Atom); m != nil {
-						if s, err := strconv.Unquote(m[1]); err == nil {
-							out = append(out, s)
+						for i, prm := range callee.Params {
+							if st.Val == ssa.Value(prm) && i < len(t.Call.Args) {
+								from(t.Call.Args[i], b)
+							}
 						}
 					}
 				}
